@@ -1,7 +1,7 @@
 (* driver.ml — reads exported instances (rows of integers, one row per line;
    a line "0" ends an instance; a line starting with '#' is a label copied to
    the output) and prints, per instance, the label and the result codes of the
-   extracted Coq function Vchk.run_instance.  Trusted: int <-> Z conversion and
+   extracted Coq function Vchk.run_any.  Trusted: int <-> Z conversion and
    line splitting below. *)
 open Vchk
 
@@ -32,7 +32,7 @@ let () =
        let line = input_line stdin in
        if String.length line > 0 && line.[0] = '#' then label := line
        else if String.trim line = "0" then begin
-         let res = run_instance (List.rev !rows) in
+         let res = run_any (List.rev !rows) in
          print_string !label;
          List.iter (fun z -> print_char ' '; print_int (int_of_z z)) res;
          print_newline ();
